@@ -243,3 +243,48 @@ func verifOSync() int {
 }
 
 func sleepShort() { realtime.Sleep(20 * realtime.Microsecond) }
+
+// ---- a single failing extent query (FIEMAP) during a block-map rebuild ----
+
+type verifBadFd struct {
+	types.DiffDisk
+	bad  *os.File
+	used bool
+}
+
+func (v *verifBadFd) Fd() uintptr {
+	if !v.used {
+		v.used = true
+		return v.bad.Fd() // FIEMAP on /dev/null fails
+	}
+	return v.DiffDisk.Fd()
+}
+
+var verifDevNull *os.File
+
+// VerifFailFiemapOnce makes the next extent query on chain file idx (1 = base ... len-1 = head) fail; the returned
+// function puts the original file object back.
+func (r *Replica) VerifFailFiemapOnce(idx int) (restore func(), ok bool) {
+	if idx <= 0 || idx >= len(r.volume.files) || r.volume.files[idx] == nil {
+		return func() {}, false
+	}
+	if verifDevNull == nil {
+		f, err := os.Open("/dev/null")
+		if err != nil {
+			panic(err)
+		}
+		verifDevNull = f
+	}
+	orig := r.volume.files[idx]
+	r.volume.files[idx] = &verifBadFd{DiffDisk: orig, bad: verifDevNull}
+	return func() {
+		if idx < len(r.volume.files) {
+			if w, ok := r.volume.files[idx].(*verifBadFd); ok {
+				r.volume.files[idx] = w.DiffDisk
+			}
+		}
+	}, true
+}
+
+// VerifNumFiles is the number of open chain files (head included).
+func (r *Replica) VerifNumFiles() int { return len(r.volume.files) - 1 }
